@@ -61,6 +61,17 @@ def build_models(rng, wd, quick):
     # have: om_assert fires INSIDE the parallel region of BlocksBase::D  (real trigger through the public interface)
     kx = len(specs)
     write_case_model(rng, wd, kx, models.nested([1.0], [1.0], 0), 0.5)
+    # input-driven exception triggers: a mesh whose vertex list has a vertex that no triangle uses (readers and Geometry
+    # accept it): Mesh::triangles(V) -> std::map::at throws std::out_of_range inside the N-block / Ferguson regions
+    import copy
+    base = models.nested([0.8, 0.9, 1.0], [1.0, 0.0125, 1.0], 0)
+    for which in (0, 1, 2):
+        mm = copy.deepcopy(base); name, vs, ts = mm["meshes"][which]; r = [0.8, 0.9, 1.0][which]
+        mm["meshes"][which] = (name, vs + [(r * 0.6, r * 0.64, r * 0.48)], ts)
+        d = write_case_model(rng, wd, kx + 1 + which, mm, 0.4)
+        if which == 0:
+            v, t = models.icosphere(0)
+            models.write_tri(os.path.join(d, "src.tri"), models.transform(v, 0.4) + [(0.24, 0.256, 0.192)], t)
     return out, kx
 
 # ------------------------------------------------------------------ index dump -> model cases
@@ -227,6 +238,36 @@ def judge_exceptions(ck, ecases, io, found):
         else: ok += 1
     return ok
 
+INPUT_TRIGGERS = [(1, 1, "HeadMat, innermost mesh has a vertex used by no triangle (map::at in the N blocks)"),
+                  (1, 4, "Head2MEGMat, innermost mesh has an unused vertex (map::at in operatorFerguson)"),
+                  (1, 3, "SurfSourceMat, the mesh bounding the source domain has an unused vertex (map::at in NonDiagonalBlock::N)"),
+                  (1, 6, "SurfSource2MEGMat, the source mesh has an unused vertex (map::at in operatorFerguson)"),
+                  (2, 1, "HeadMat, middle mesh has an unused vertex (N blocks)"), (2, 4, "Head2MEGMat, middle mesh has an unused vertex"),
+                  (3, 1, "HeadMat, outermost mesh has an unused vertex (N blocks)"), (3, 4, "Head2MEGMat, outermost mesh has an unused vertex")]
+
+def judge_input_exceptions(ck, ecases, io, found):
+    """input-driven triggers: library code throws inside a region.  Outcome classes: the exception reached the caller
+    (same status for every thread count) / the process terminated / nothing raised any more (stale trigger)."""
+    ok = 0
+    for (c, desc), line in zip(ecases, io):
+        ints, _ = core.fparse(line)
+        th = [int(x) for x in c.split("|")[0].split()[6:]]
+        if not ints or ints == [-1] or len(ints) % 3:
+            ck.violation("process terminated instead of raising: " + desc,
+                         "an error raised by library code inside a parallel loop terminated the process instead of reaching the caller as an exception (%s; thread counts %s run in this order): %s"
+                         % (desc, th, line), dict(kind="exception-input", cases=[c], impl=[line]))
+            found.append("exception"); continue
+        sts = ints[0::3]
+        if all(x == 0 for x in sts):
+            ck.violation("stale exception trigger: " + desc, "the input no longer makes the library raise anything, with a single thread either (%s): statuses for threads %s = %s -- the check needs another trigger"
+                         % (desc, th, sts), dict(kind="exception-trigger", cases=[c], impl=[line]), found_input=False)
+        elif any(x == 0 for x in sts) or len(set(sts)) > 1:
+            ck.violation("exception outcome depends on the thread count: " + desc, "statuses for threads %s = %s (0 = returned normally) (%s)" % (th, sts, desc),
+                         dict(kind="exception-input", cases=[c], impl=[line]))
+            found.append("exception")
+        else: ok += 1
+    return ok
+
 def main(replay=None):
     ck = core.Check(PROP, "proof")
     quick = ck.tier != "thorough"
@@ -284,7 +325,8 @@ def main(replay=None):
                 k, f = int(parts[2]), int(parts[3]); th = [int(x) for x in parts[5:5 + int(parts[4])]]
                 judge_diff(ck, c, o, "replayed model m%d" % k, f, th, found)
             elif parts[1] == "3":
-                judge_exceptions(ck, [(c, "replayed exception case")], [o], found)
+                if rp.get("kind") == "exception-input": judge_input_exceptions(ck, [(c, "replayed input-driven exception case")], [o], found)
+                else: judge_exceptions(ck, [(c, "replayed exception case")], [o], found)
             elif parts[1] == "4":
                 ints, fl = core.fparse(o)
                 if ints and ints[2] > 0 and (int(parts[3]) not in CRITICAL or fl[0] > ROUND_TOL * fl[1]):
@@ -496,6 +538,9 @@ def main(replay=None):
                "om_assert inside the region of %s (caller's target too small for the unknown indices), nested 3-layer model" % nm) for trig, nm in sorted(TRIGGERS.items())]
     rc, io, err = core.run_harness(hb, [c[0] for c in ecases], wd, env=ENV)
     exc_ok = judge_exceptions(ck, ecases, io, found)
+    icases = [("c05 3 %d 4 %d %d %s |" % (kx + dk, f, len(THREADS), " ".join(map(str, THREADS))), desc) for dk, f, desc in INPUT_TRIGGERS]
+    rc, io, err = core.run_harness(hb, [c[0] for c in icases], wd, env=ENV)
+    inp_ok = judge_input_exceptions(ck, icases, io, found)
 
     # ------------------------------------------------------------ search when a proof / the translator / a footprint broke
     hammered = 0
@@ -538,6 +583,7 @@ def main(replay=None):
                   footprint_mismatches=fp_mism, hook_cases=len(hk_cases), hook_single_iteration_runs=hk_iters, hook_mismatches=hk_mism, hook_markers_present=hooks_present, thread_counts=THREADS, differential_runs=ndiff_runs,
                   critical_vector_max_relative_deviation=maxrel, critical_vector_cases_with_rounding_differences=crit_diff,
                   exception_cases=len(ecases), exception_cases_propagating_for_all_thread_counts=exc_ok,
+                  input_driven_exception_cases=len(icases), input_driven_exception_cases_reaching_the_caller=inp_ok,
                   models=[d for _, d, _, _ in mods], hypothesis_well_indexed_checked_on=len(dumps), hypothesis_failures=hyp_bad,
                   parallel_loops=[dict(name=r["name"], where="%s:%d" % (r["file"], r["line"]), variant=r["variant"], critical=r["critical"],
                                        wrapped=r["wrapped"], rethrow=r["rethrow"]) for r in regs],
